@@ -574,7 +574,11 @@ def part_commute(ctx):
             for ki, kw in enumerate(kwl):
                 for use_mask in (False, True):
                     for use_err in ((False, True) if fn in ('1dg', '2dg') else (False,)):
-                        for tn in tnames:
+                        # extreme but valid flux scales (SI units, raw counts): only for the
+                        # closed-form centroids, the Gaussian fitters have their own tolerances
+                        extra = ['scale1e-12', 'scale1e-26', 'scale1e+15'] \
+                            if fn in ('com', 'quadratic') else []
+                        for tn in tnames + extra:
                             check_commute(rec, fn, scene, seed0 + si, use_mask, use_err, kw, tn,
                                           (scene, fn, ki, use_mask, use_err, tn))
                 for use_err in ((False, True) if fn in ('1dg', '2dg') else (False,)):
